@@ -45,7 +45,8 @@ def run_one(mdir, tier="quick", pids=None):
         rc1, msg = demo(REPO, os.path.join(mdir, "demo.py"))
         out["demo_mutant"] = rc1
         for p in (pids or [pid]):
-            r = sh(f"cd {VERIF} && ./check {p} --tier {tier}", timeout=3600)
+            # the evidence of a dry run against a seeded change never replaces the committed evidence
+            r = sh(f"cd {VERIF} && VERIF_EVIDENCE_DIR={VERIF}/.work/evidence_seeded ./check {p} --tier {tier}", timeout=3600)
             viol = [l for l in r.stdout.split("\n") if l.startswith("VIOLATION")]
             out[f"check_{p}"] = {"exit": r.returncode, "violation": viol[:1],
                                  "tail": r.stdout.strip().split("\n")[-1][-200:]}
